@@ -92,9 +92,11 @@ class Ocp(Stage):
                 self._var_augmented = augmented
                 augmented._placeholders = self._placeholders
                 
-                return self._augmented._transcribed
+                # Only a freshly made copy is transcribed: a copy kept alive by an earlier
+                # solution must not transcribe itself (again) in the name of the edited Ocp
+                augmented._transcribe()
+                return augmented
         else:
-            self._transcribe()
             return self
         
     def transcribe(self,**kwargs):
